@@ -376,6 +376,27 @@ func (e *sEnv) ex(x ast.Expr) (*Ex, error) {
 				return mkSym("W(" + strings.Join(names, "|") + ")"), nil
 			}
 		}
+		// integer-indexed table function (depth tables): opaque node
+		if sig.Recv() == nil && sig.Params().Len() >= 1 && sig.Results().Len() == 1 && isFloat(sig.Results().At(0).Type()) {
+			allInt := true
+			for i := 0; i < sig.Params().Len(); i++ {
+				b, ok := sig.Params().At(i).Type().Underlying().(*types.Basic)
+				if !ok || b.Kind() != types.Int {
+					allInt = false
+				}
+			}
+			if allInt {
+				var args []*Ex
+				for _, a := range n.Args {
+					v, err := e.ex(a)
+					if err != nil {
+						return nil, err
+					}
+					args = append(args, v)
+				}
+				return mkCall("tbl:"+fn.Name(), args...), nil
+			}
+		}
 		if e.depth > 10 {
 			return nil, e.fail(x, "inlining depth exceeded")
 		}
